@@ -99,6 +99,9 @@ void UtilContext::disasm(const char *token)
 
   if (get_range(token, &start, &end) == -1) { return; }
 
+  // The range loops step `start` past `end`: stay clear of the 32 bit wrap.
+  if (end > 0xffffffef) { end = 0xffffffef; }
+
   disasm_range(
     &memory,
     flags,
